@@ -285,7 +285,9 @@ func (iter *DBIterator) materialize(src *kv.Entry) bool {
 			return false
 		}
 		iter.entry.Value = src.Value
-		iter.item.valueBuf = iter.entry.Value
+		// src.Value points into the memtable arena / table block. The item's scratch buffer
+		// must never alias it: ValueCopy appends into that buffer.
+		iter.item.valueBuf = nil
 	}
 	iter.item.e = &iter.entry
 	return true
